@@ -6,6 +6,7 @@ property theorems and non-vacuity examples live here; helper lemmas are in
 import Golib.Proof.C19Fill
 import Golib.Proof.C19Rec
 import Golib.Proof.C19Hid
+import Golib.Proof.C19Trace
 import Golib.Gen.FactsC19
 
 namespace Golib.C19
@@ -230,6 +231,68 @@ example : ∃ s, Reachable 1 s ∧ s.running = 1 ∧ s.k = 1 ∧
     s.tasks.map (·.handled) = [[.val 7], [], []] := by
   refine ⟨_, ⟨[.submit (.panic 7), .adv 0, .adv 0, .adv 0, .adv 0, .submit .ok, .submit .ok,
     .adv 0, .adv 0, .adv 0, .adv 0, .adv 1, .adv 1, .adv 1, .adv 1], rfl⟩, ?_⟩
+  decide
+
+/-! ### Refinement: every trace the machine ACCEPTS satisfies the property clauses as
+predicates on the trace itself
+
+The harness logs the events of real runs and has the oracle answer every line
+(`acceptAll`); `c19_acceptAll_sound` turns "every line answered ok" into the hypothesis
+`accepts (newLimiter limit) tr = some s` of the four theorems below, whose conclusions
+(`TraceBound`, `TraceOnce`, `TraceWait`, `TraceHandler`, defined in `Golib.Model.C19Trace`)
+mention the observed trace only — no machine state. -/
+
+/-- `c19_acceptAll_sound`: if the oracle answers `ok` to every logged line then the lines
+parse (`parseEv?`, the token shapes of `acceptEv`: `acceptEv_eq`) to a structured trace
+that the machine accepts from `NewLimiter(limit)`. -/
+theorem c19_acceptAll_sound (limit : Int) (lines : List String)
+    (h : ∀ a ∈ acceptAll (newLimiter limit) lines, a = "ok") :
+    ∃ tr s, lines.map (fun l => parseEv? (Proto.toks l)) = tr.map some ∧
+      accepts (newLimiter limit) tr = some s :=
+  acceptAll_sound lines _ h
+
+/-- `c19_trace_bound`: in every prefix of an accepted trace,
+#start ≤ #finish + n (n = limit, or 3 for limit < 1): at no moment of the observed run were
+more than `n` functions inside. -/
+theorem c19_trace_bound (limit : Int) (tr : List Ev) (s : St)
+    (h : accepts (newLimiter limit) tr = some s) : TraceBound (limitOf limit) tr :=
+  traceBound_of_accepts h
+
+/-- `c19_trace_exactly_once`: in an accepted trace no task id is started twice or finished
+twice, `start i` is preceded by at least `i+1` submit events, `finish i` by `start i`. -/
+theorem c19_trace_exactly_once (limit : Int) (tr : List Ev) (s : St)
+    (h : accepts (newLimiter limit) tr = some s) : TraceOnce tr :=
+  traceOnce_of_accepts h
+
+/-- `c19_trace_wait`: in an accepted trace, before every `waitret` each function that was
+entered has been left (the WaitGroup counter is zero), and in every prefix
+#waitret ≤ #waitcall. -/
+theorem c19_trace_wait (limit : Int) (tr : List Ev) (s : St)
+    (h : accepts (newLimiter limit) tr = some s) : TraceWait tr :=
+  traceWait_of_accepts h
+
+/-- `c19_trace_handler`: in an accepted trace the handler events are matched injectively to
+task ids: the matched task was submitted with `panic v` for the received `v`, had finished
+before, and the receiving handler is the one configured (last `sethandler`, default 0) when
+the task was started; no task is matched twice; and before every `waitret` each finished
+panicking task has had its handler event. -/
+theorem c19_trace_handler (limit : Int) (tr : List Ev) (s : St)
+    (h : accepts (newLimiter limit) tr = some s) : TraceHandler tr :=
+  traceHandler_of_accepts h
+
+/-- Non-vacuity: limit 1; task 0 (panics with 7) is inside, task 1 is submitted and blocked
+(`start 1` is not accepted), a `Wait()` is called; task 0 leaves, its value reaches handler
+0, the `Wait()` returns (task 1 has not yet done `Add`), then task 1 starts.  The whole
+trace is accepted; a `waitret` before the handler event, or a second `start 0`, is not. -/
+example :
+    (accepts (newLimiter 1) [.submit (.panic 7), .start 0, .submit .ok, .waitcall, .finish 0,
+        .handler 7 0, .waitret, .start 1]).isSome = true ∧
+    accepts (newLimiter 1) [.submit (.panic 7), .start 0, .submit .ok, .start 1] = none ∧
+    accepts (newLimiter 1) [.submit (.panic 7), .start 0, .submit .ok, .waitcall, .finish 0,
+        .waitret] = none ∧
+    accepts (newLimiter 1) [.submit (.panic 7), .start 0, .submit .ok, .waitcall, .finish 0,
+        .handler 7 1] = none ∧
+    accepts (newLimiter 1) [.submit (.panic 7), .start 0, .start 0] = none := by
   decide
 
 end Golib.C19
